@@ -56,7 +56,10 @@ class PvBaseFault(BaseException):
 
 
 _EXC = {"PvFault": PvFault, "ValueError": ValueError, "MemoryError": MemoryError, "KeyError": KeyError,
-        "RuntimeError": RuntimeError, "OSError": OSError, "PvBaseFault": PvBaseFault, "PvSilentFault": PvSilentFault}
+        "RuntimeError": RuntimeError, "OSError": OSError, "PvBaseFault": PvBaseFault, "PvSilentFault": PvSilentFault,
+        # the kinds of error a worker's own code produces by accident (and that broad `except` clauses like to absorb)
+        "AttributeError": AttributeError, "TypeError": TypeError, "IndexError": IndexError, "ZeroDivisionError": ZeroDivisionError,
+        "NotImplementedError": NotImplementedError, "StopIteration": StopIteration, "AssertionError": AssertionError}
 
 
 def _dir():
